@@ -397,12 +397,25 @@ package graphql
 //@ func overlappingFieldsCanBeMergedRule.collectConflictsWithin
 //@   trusted
 //@   assigns class:M|, class:E|, class:graphql.ValidationContext, class:graphql.pairSet, class:graphql.fieldsAndFragmentNames, class:graphql.fieldDefPair, class:graphql.conflict
+// C19 (memo effectiveness): the collected fields of a selection set are computed once per rule instance:
+// a hit returns the stored collection without collecting again, a miss stores what it returns under the
+// selection set itself (the (fields, fragment) memo is keyed by this pointer, so a collection that is not
+// stored makes every later lookup a miss and the pairwise comparison exponential).
 //@ func overlappingFieldsCanBeMergedRule.getFieldsAndFragmentNames
-//@   trusted
+//@   props C19 C02
+//@   nosafety
+//@   requires rule != nil && rule.cacheMap != nil
 //@   assigns class:M|, class:E|, class:graphql.ValidationContext, class:graphql.pairSet, class:graphql.fieldsAndFragmentNames, class:graphql.fieldDefPair, class:graphql.conflict
+//@   ensures[C19] old(has(rule.cacheMap, selectionSet) && rule.cacheMap[selectionSet] != nil) ==> result == old(rule.cacheMap[selectionSet]) && calls("collectFieldsAndFragmentNames") == 0
+//@   ensures[C19] result != nil && has(rule.cacheMap, selectionSet) && rule.cacheMap[selectionSet] == result
 //@ func overlappingFieldsCanBeMergedRule.getReferencedFieldsAndFragmentNames
-//@   trusted
+//@   props C19 C02
+//@   nosafety
+//@   requires rule != nil && rule.cacheMap != nil && fragment != nil
 //@   assigns class:M|, class:E|, class:graphql.ValidationContext, class:graphql.pairSet, class:graphql.fieldsAndFragmentNames, class:graphql.fieldDefPair, class:graphql.conflict
+//@   ensures[C19] old(has(rule.cacheMap, fragment.SelectionSet) && rule.cacheMap[fragment.SelectionSet] != nil) ==> result == old(rule.cacheMap[fragment.SelectionSet]) && calls("getFieldsAndFragmentNames") == 0 && calls("typeFromAST") == 0
+//@   at[C19] call getFieldsAndFragmentNames: assert arg2 == fragment.SelectionSet
+//@   ensures[C19] calls("getFieldsAndFragmentNames") == 1 ==> result == lastresult("getFieldsAndFragmentNames")
 //@ func ValidationContext.Fragment
 //@   trusted
 //@   assigns class:M|, class:E|, class:graphql.ValidationContext, class:graphql.pairSet, class:graphql.fieldsAndFragmentNames, class:graphql.fieldDefPair, class:graphql.conflict
@@ -825,6 +838,30 @@ package graphql
 
 // The gate of a conditionally spread fragment: an unconditional spread at the selection's own
 // level makes it constant; otherwise every spread is recorded.
+// The backwards search over the spread graph: an unconditional gate is included; a gate already
+// searched is not searched again and, C19, STAYS marked when the search returns (entries of seen are only
+// ever added), which keeps one inclusion test linear in the number of spreads; every edge is tested with
+// the request's variables and followed to the gate of the enclosing fragment with the same visited set.
+//@ func fragmentGate.reachable
+//@   props C19 C01
+//@   nosafety
+//@   requires g != nil && seen != nil
+//@   opt callback.cond=pure
+//@   assigns class:M|*graphql.fragmentGate|bool
+//@   ensures old(g.always) ==> result && calls("reachable") == 0
+//@   ensures !old(g.always) && old(has(seen, g) && seen[g]) ==> !result && calls("reachable") == 0 && calls("cond") == 0
+//@   ensures[C19] mapkept(seen)
+//@   ensures[C19] !old(g.always) ==> has(seen, g) && seen[g]
+//@   loop 1 invariant mapkept(seen) && has(seen, g) && seen[g]
+//@   at call reachable: assert arg0 == e.from && arg0 != nil && arg1 == vars && arg2 == seen && has(seen, g) && seen[g]
+//@   at call cond: assert arg0 == vars
+//@ func fragmentGate.included
+//@   props C19 C01
+//@   nosafety
+//@   requires g != nil
+//@   assigns class:M|*graphql.fragmentGate|bool
+//@   at call reachable: assert arg0 == g && arg1 == vars && fresh(arg2) && len(arg2) == 0
+//@   ensures result == lastresult("reachable")
 //@ func fragmentGate.add
 //@   props C01
 //@   requires g != nil
